@@ -275,6 +275,17 @@ func pairWalk(orig, dec reflect.Value) string {
 	return walk(orig, dec, "$")
 }
 
+// PCG holds a map and a slice directly, behind a pointer, and directly again.
+type PCG struct {
+	M   map[string]*zoo.Inner
+	PM  *map[string]*zoo.Inner
+	M2  map[string]*zoo.Inner
+	L   []*zoo.Inner
+	PL  *[]*zoo.Inner
+	L2  []*zoo.Inner
+	End int32
+}
+
 // IntA, IntB, IntC hold interior pointers next to the whole value.
 type IntA struct {
 	First  *zoo.Base
@@ -347,7 +358,9 @@ func graphCheckMaps(c *core.Ctx, root interface{}, desc, shape string, nilNames 
 	r := pairWalk(ov, dv)
 	if r == "" {
 		// pointers to objects of other types (leaf objects without links) must keep their sharing too
-		r = NewPairing().Cmp(ov, dv, "$")
+		cp := NewPairing()
+		cp.Containers = true
+		r = cp.Cmp(ov, dv, "$")
 	}
 	if r != "" {
 		kind := "mismatch"
@@ -711,6 +724,53 @@ func init() {
 				}
 				c.Cover("interior")
 			}})
+			// maps and slices held directly and behind pointers: the same container over two paths stays one container,
+			// two equal containers stay two
+			us = append(us, core.Unit{Name: "containers-behind-pointers", Cost: 5, Run: func(c *core.Ctx) {
+				for code := 0; code < 18*18; code++ {
+					if !c.Begin() {
+						continue
+					}
+					c.NontrivialN(1)
+					c.Res.States++
+					m1, m2 := map[string]*zoo.Inner{"k": {A: 1}}, map[string]*zoo.Inner{"k": {A: 1}}
+					l1, l2 := []*zoo.Inner{{A: 2}, {A: 3}}, []*zoo.Inner{{A: 2}, {A: 3}}
+					v := &PCG{End: 7}
+					mc, lc := code%18, code/18
+					if mc%2 == 1 {
+						v.M = m1
+					}
+					switch mc / 2 % 3 {
+					case 1:
+						v.PM = &m1
+					case 2:
+						v.PM = &m2
+					}
+					switch mc / 6 {
+					case 1:
+						v.M2 = m1
+					case 2:
+						v.M2 = m2
+					}
+					if lc%2 == 1 {
+						v.L = l1
+					}
+					switch lc / 2 % 3 {
+					case 1:
+						v.PL = &l1
+					case 2:
+						v.PL = &l2
+					}
+					switch lc / 6 {
+					case 1:
+						v.L2 = l1
+					case 2:
+						v.L2 = l2
+					}
+					c.Outcome(graphCheck(c, v, fmt.Sprintf("PCG map fields %d%d%d, slice fields %d%d%d (field, pointer field: 0 nil 1 same 2 other, second field: 0 nil 1 same 2 other)", mc%2, mc/2%3, mc/6, lc%2, lc/2%3, lc/6), "containers behind pointers"))
+				}
+				c.Cover("containers-behind-pointers")
+			}})
 			// very many objects in one message: late objects must keep their sharing like early ones
 			us = append(us, core.Unit{Name: "large", Cost: 60, Run: func(c *core.Ctx) {
 				for _, lc := range largeCases(tier) {
@@ -742,7 +802,7 @@ func init() {
 			return us
 		},
 		RequireCover: func(string) []string {
-			l := []string{"families", "large", "interior", "list-map-fields", "gc-during-encode"}
+			l := []string{"families", "large", "interior", "containers-behind-pointers", "list-map-fields", "gc-during-encode"}
 			for _, f := range fillers() {
 				l = append(l, "filler:"+f.name)
 			}
